@@ -18,7 +18,7 @@ overlay of the *combined reply so far* on the original — is the reply/view sim
 it is evaluated on every generated chain by the C03/C04 correspondence runs.
 -/
 namespace Nri.Props.C04
-open Nri Nri.Api Nri.Result Nri.Ledger Nri.Overlay
+open Nri Nri.NApi Nri.Result Nri.Ledger Nri.Overlay
 
 /-- the adjustment part of each chain element (`none` for an absent response or adjustment) -/
 def adjOf : Plugin × Option Response → Option Adjustment
